@@ -1,90 +1,16 @@
 import Pacti.Driver.Wire
-import Pacti.Model.Simplex
-import Pacti.Model.Poly
-import Pacti.Model.Contract
+import Pacti.Driver.OpsPoly
 open Lean Wire
 
-def theOracle : Oracle := checkedOracle Simplex.solve
-
-def jLPRes : LPRes → Json
-  | .optimal m x => Json.mkObj [("status", "optimal"), ("m", jRat m), ("x", jLin x)]
-  | .infeasible => Json.mkObj [("status", "infeasible")]
-  | .unbounded => Json.mkObj [("status", "unbounded")]
-  | .stuck => Json.mkObj [("status", "stuck")]
-
-def jExcept {α} (r : Except Err α) (f : α → Json) : Json :=
-  match r with
-  | .ok a => Json.mkObj [("ok", f a)]
-  | .error e => Json.mkObj [("err", jErr e)]
-
-def jVerdict : Poly.Verdict → Json
-  | .yes => "yes" | .no => "no" | .gray => "gray"
-
-def getContract (j : Json) : Except String PContract := do
-  let a ← getTL (← j.getObjVal? "a")
-  let g ← getTL (← j.getObjVal? "g")
-  let ins ← getVars (← j.getObjVal? "ins")
-  let outs ← getVars (← j.getObjVal? "outs")
-  pure ⟨a, g, ins, outs⟩
-
-def jContract (c : PContract) : Json :=
-  Json.mkObj [("a", jTL c.a), ("g", jTL c.g), ("ins", jVars c.ins), ("outs", jVars c.outs)]
+/-- every op family registers one handler here -/
+def handlers : List (String → Json → Option (Except String Json)) :=
+  [handlePoly]
 
 def handle (j : Json) : Except String Json := do
   let op ← (← j.getObjVal? "op").getStr?
-  match op with
-  | "lp" =>
-    let obj ← getLin (← j.getObjVal? "obj")
-    let cs ← getTL (← j.getObjVal? "cs")
-    pure (jLPRes (theOracle.lp obj cs))
-  | "contains" =>
-    let l ← getTL (← j.getObjVal? "terms")
-    let b ← getLin (← j.getObjVal? "beh")
-    pure (jExcept (Poly.containsBehavior l b) Json.bool)
-  | "is_empty" =>
-    let l ← getTL (← j.getObjVal? "terms")
-    pure (jExcept (Poly.isEmpty theOracle l) Json.bool)
-  | "refines" =>
-    let l ← getTL (← j.getObjVal? "lhs")
-    let r ← getTL (← j.getObjVal? "rhs")
-    pure (jExcept (Poly.refinesTL theOracle l r) jVerdict)
-  | "mono" =>
-    let l ← getTL (← j.getObjVal? "lhs")
-    let r ← getTL (← j.getObjVal? "rhs")
-    let b ← getLin (← j.getObjVal? "beh")
-    let res : Except Err Json := do
-      let a ← Poly.containsBehavior l b
-      let f ← Poly.refinesTL theOracle l r
-      let c ← Poly.containsBehavior r b
-      pure (Json.arr #[Json.bool a, jVerdict f, Json.bool c])
-    pure (jExcept res id)
-  | "refinesC" =>
-    let c ← getContract (← j.getObjVal? "c")
-    let d ← getContract (← j.getObjVal? "d")
-    pure (jExcept (Poly.refinesC theOracle c d) jVerdict)
-  | "contains_env" =>
-    let c ← getContract (← j.getObjVal? "c")
-    let l ← getTL (← j.getObjVal? "terms")
-    pure (jExcept (Poly.containsEnvironment theOracle c l) jVerdict)
-  | "contains_impl" =>
-    let c ← getContract (← j.getObjVal? "c")
-    let l ← getTL (← j.getObjVal? "terms")
-    pure (jExcept (Poly.containsImplementation theOracle c l) jVerdict)
-  | "simplify" =>
-    let l ← getTL (← j.getObjVal? "terms")
-    let ctx ← match j.getObjVal? "ctx" with
-      | .ok .null => pure none
-      | .ok c => (getTL c).map some
-      | .error _ => pure none
-    let a := Poly.simplify theOracle (fun _ => true) l ctx
-    let b := Poly.simplify theOracle (fun _ => false) l ctx
-    pure ((jExcept a jTL).setObjVal! "alt" (jExcept b jTL))
-  | "optimize" =>
-    let l ← getTL (← j.getObjVal? "terms")
-    let obj ← getLin (← j.getObjVal? "obj")
-    let mx ← getBool (← j.getObjVal? "max")
-    pure (jExcept (Poly.optimize theOracle l obj mx) (fun o => match o with | some q => jRat q | none => Json.null))
-  | _ => throw s!"unknown op {op}"
+  match handlers.findSome? (fun h => h op j) with
+  | some r => r
+  | none => throw s!"unknown op {op}"
 
 partial def loop (h : IO.FS.Stream) (out : IO.FS.Stream) : IO Unit := do
   let line ← h.getLine
